@@ -119,8 +119,11 @@ class MultimapResolver:
             all_genes.update(assignment.genes)
             all_isoforms.update(assignment.isoforms)
 
-        change_transcript_assignment_type = len(all_isoforms) > 1
-        change_gene_assignment_type = len(all_genes) > 1
+        # the read is re-flagged only when it is kept on several alignments: a single retained alignment keeps the type and
+        # the multimapper flag it came with (an ambiguous primary alignment whose other alignments lost is not a multimapper)
+        several_kept = len(assignments_to_keep) > 1
+        change_transcript_assignment_type = several_kept and len(all_isoforms) > 1
+        change_gene_assignment_type = several_kept and len(all_genes) > 1
 
         assignments_to_keep_set = set(assignments_to_keep)
         for i in range(len(assignment_list)):
